@@ -109,11 +109,21 @@ def check_errhandler_text(s, t, cs):
     return None
 
 
+def _st_markup(s):
+    import markupsafe
+    return markupsafe.Markup(s)
+
+
 def check_string(s, res, via_template=False):
     changed = False
     # h and x
     for name, fn in (("h", F.html_escape), ("x", F.xml_escape)):
         try:
+            if name == "h" and len(s) <= 200:
+                # h passes trusted Markup through unchanged; that must not change what it does to the equal plain str
+                mk = fn(_st_markup(s))
+                if str(mk) != s:
+                    res.violate("markup-not-passed-through", "h(Markup(%r)) = %r" % (s, str(mk)))
             o = str(fn(s))
         except Exception as e:
             res.violate("filter-raises", "%s(%r) raised %r" % (name, s, e), witness=repr(s))
